@@ -20,6 +20,7 @@ Import ListNotations.
 From TI Require Import model.Iter model.IterSpec proofs.IterProofs proofs.IterProofs2
      proofs.IterProofs3 proofs.IterProofs4 proofs.IterExamples.
 From TI Require gen.IterSrc proofs.IterSrcTie.
+From TI Require Import model.IterEnv model.IterSession proofs.IterEnvProofs proofs.IterEnvExamples.
 Open Scope Z_scope.
 
 (** for EVERY history: frames (number, duration, size, output, padding), countdown, errors
@@ -238,3 +239,135 @@ Theorem C08_source_seek_definite_range :
     f = match w with WStart => off | WCurrent => fo_ + off | WEnd => k + off - 1 end.
 Proof. exact TI.proofs.IterSrcTie.source_seek_definite_range. Qed.
 Print Assumptions C08_source_seek_definite_range.
+
+(** *** histories in a CHANGING environment (model/IterEnv.v)
+
+    An event is [(terminal size in force, operation of the iterator | client write to
+    [iterator.loop])]; [trace_env] / [spec_trace_env] run the code model / the documented
+    machine over events, each operation AT the terminal size of its event; the documented
+    machine keeps, beside the state of [IterSpec], the value the client last wrote into the
+    attribute while the countdown has not changed since.  [term0] is the terminal size at
+    construction.
+
+    For EVERY history of events - whatever the resizes between operations and whatever is
+    written to [iterator.loop] - frames (number, duration, size, output, padding), the value
+    read from [iterator.loop] and errors are those of the documented machine *)
+Theorem C08_iter_env_refines_spec :
+  forall RS render n term0 c rs0 s a h,
+    (cache_decision n (c_cache c) = false \/ render_det RS render) ->
+    mk RS n term0 c rs0 = inl s -> spec_mk RS n term0 c rs0 = inl a ->
+    trace_env RS render n s h = spec_trace_env RS render n (a, None) h.
+Proof. exact iter_env_refines_spec. Qed.
+Print Assumptions C08_iter_env_refines_spec.
+
+(** the histories of the theorems above are the events at a constant terminal size *)
+Theorem C08_env_constant_terminal :
+  forall RS render n term ops (s : state RS) (a : astate RS),
+    trace_env RS render n s (const_env term ops) = trace RS render n term s ops /\
+    spec_trace_env RS render n (a, None) (const_env term ops) = spec_trace RS render n term a ops.
+Proof. exact env_constant_terminal. Qed.
+Print Assumptions C08_env_constant_terminal.
+
+(** "Modifying this doesn't affect the iterator": from ANY state of the code model, for any
+    history, what the operations return (frames, stops, errors) is what they return in the
+    history with the client writes erased, and the final states agree (generator countdown
+    included) except for the attribute itself *)
+Theorem C08_loop_write_irrelevant :
+  forall RS render n h (s : state RS),
+    outs_env RS render n s h = outs_env RS render n s (erase_pokes h) /\
+    eq_mod_pub RS (run_env RS render n s h) (run_env RS render n s (erase_pokes h)).
+Proof. exact poke_irrelevant. Qed.
+Print Assumptions C08_loop_write_irrelevant.
+
+Theorem C08_loop_write_irrelevant_spec :
+  forall RS render n h (p : pstate RS),
+    spec_outs_env RS render n p h = spec_outs_env RS render n p (erase_pokes h) /\
+    fst (spec_run_env RS render n p h) = fst (spec_run_env RS render n p (erase_pokes h)).
+Proof. exact spec_poke_irrelevant. Qed.
+Print Assumptions C08_loop_write_irrelevant_spec.
+
+(** as soon as the documented countdown changes, [iterator.loop] shows it again *)
+Theorem C08_loop_readback_after_update :
+  forall RS render n (p : pstate RS) t o,
+    a_loop (fst (fst (spec_estep RS render n p (t, EOp o)))) <> a_loop (fst p) ->
+    readback RS (fst (spec_estep RS render n p (t, EOp o))) =
+    a_loop (fst (fst (spec_estep RS render n p (t, EOp o)))).
+Proof. exact readback_after_update. Qed.
+Print Assumptions C08_loop_readback_after_update.
+
+(** the padding of the iteration changes at [set_padding] only, where it becomes the padding
+    given, resolved against the terminal size of THAT event: no other operation (in
+    particular [set_render_size], [seek], [next]), no resize and no client write touches it *)
+Theorem C08_padding_changes_only_at_set_padding :
+  forall RS render n (s : state RS) (e : ev),
+    pad (fst (estep RS render n s e)) =
+    match snd e with
+    | EOp (SetPadding p) => if closed s then pad s else resolve (fst e) p
+    | _ => pad s
+    end.
+Proof. exact estep_pad. Qed.
+Print Assumptions C08_padding_changes_only_at_set_padding.
+
+(** hence, after any history that leaves the iterator open: the padding in force is the one
+    given to the LATEST [set_padding], resolved against the terminal size at that event (the
+    constructor's padding, resolved at construction, if there was none) ... *)
+Theorem C08_padding_after_history :
+  forall RS render n h (s : state RS),
+    closed (run_env RS render n s h) = false ->
+    pad (run_env RS render n s h) = resolved (last_set_padding h None) (pad s).
+Proof. exact pad_after_history. Qed.
+Print Assumptions C08_padding_after_history.
+
+(** ... and the stored padded size is that padding applied to the current render size *)
+Theorem C08_padded_size_after_history :
+  forall RS render n term0 c rs0 s h,
+    (cache_decision n (c_cache c) = false \/ render_det RS render) ->
+    mk RS n term0 c rs0 = inl s ->
+    let s' := run_env RS render n s h in
+    closed s' = false ->
+    pad s' = resolved (last_set_padding h None) (resolve term0 (c_pad c)) /\
+    padded s' = padded_size (pad s') (d_size (rd s')).
+Proof. exact padded_after_history. Qed.
+Print Assumptions C08_padded_size_after_history.
+
+(** the documented machine: same rule for its padding; every frame it yields is padded with
+    the padding in force, to that padding applied to the current render size *)
+Theorem C08_spec_padding_rule :
+  forall RS render n term (a : astate RS) o,
+    a_pad (fst (spec_step RS render n term a o)) =
+    match o with
+    | SetPadding p => if a_closed a then a_pad a else resolve term p
+    | _ => a_pad a
+    end.
+Proof. exact spec_step_pad. Qed.
+Print Assumptions C08_spec_padding_rule.
+
+Theorem C08_spec_frame_padding :
+  forall RS render n term (a : astate RS) o f,
+    snd (spec_step RS render n term a o) = OFrame f ->
+    exists rf, f = wrap_frame (a_pad a) (padded_size (a_pad a) (a_size a)) rf.
+Proof. exact spec_frame_padding. Qed.
+Print Assumptions C08_spec_frame_padding.
+
+(** *** render data re-used by a second iterator ([_from_render_data_(..., finalize=False)],
+    sessions of model/IterSession.v): a first iterator over fresh data runs ANY history [h1]
+    (advanced k frames, seeked, resized, closed or simply dropped); a second iterator is made
+    over the same data ([remake] = [IterSession.sstep] on [SMake]).  For a definite source its
+    trace, for EVERY history [h2], is that of the documented machine constructed AFRESH - next
+    frame 0, full countdown - over the render size and frame duration the first history
+    documents, wherever the first iteration stopped ([rs s1']: the renderable's own state) *)
+Theorem C08_second_iterator_is_fresh :
+  forall RS render n term0 c1 rs0 s1 a1 h1 term2 c2 s2 k,
+    n = Some k ->
+    (cache_decision n (c_cache c1) = false \/ render_det RS render) ->
+    (cache_decision n (c_cache c2) = false \/ render_det RS render) ->
+    mk RS n term0 c1 rs0 = inl s1 -> spec_mk RS n term0 c1 rs0 = inl a1 ->
+    let s1' := run_env RS render n s1 h1 in
+    let a1' := fst (spec_run_env RS render n (a1, None) h1) in
+    remake RS render n term2 s1' c2 = inl s2 ->
+    exists a2,
+      spec_mk RS n term2 (on_data c2 (a_size a1') (a_dur a1')) (rs s1') = inl a2 /\
+      a_next a2 = 0 /\ a_loop a2 = c_loops c2 /\
+      forall h2, trace_env RS render n s2 h2 = spec_trace_env RS render n (a2, None) h2.
+Proof. exact second_iterator_is_fresh. Qed.
+Print Assumptions C08_second_iterator_is_fresh.
